@@ -274,7 +274,7 @@ func genC10Doc(t *rapid.T) map[string]any {
 
 func genC10(t *rapid.T) any {
 	c := &C10Case{}
-	c.Class = rapid.SampledFrom([]string{"valid", "valid", "mutated", "mutated", "mutated", "bytes", "hostile", "hostile", "hostile-mutated", "fault", "fault", "fault", "cyclic-format", "join-on", "join-on", "scale", "dual-subquery", "stateful-builtins"}).Draw(t, "class")
+	c.Class = rapid.SampledFrom([]string{"valid", "valid", "mutated", "mutated", "mutated", "bytes", "hostile", "hostile", "hostile-mutated", "fault", "fault", "fault", "cyclic-format", "join-on", "join-on", "scale", "dual-subquery", "stateful-builtins", "union-of-hostile"}).Draw(t, "class")
 	c.Opts = genC10Opts(t)
 	c.Proc = rapid.SampledFrom([]int{0, 0, 1, 2, 4}).Draw(t, "procs")
 	if rapid.IntRange(0, 3).Draw(t, "reexec") == 0 {
@@ -466,6 +466,33 @@ func genC10(t *rapid.T) any {
 		case 1:
 			c.SQL = "SELECT k, (" + strings.Replace(c.SQL, " FROM "+from, " FROM dual", 1) + ") AS sb FROM " + from
 		}
+	case "union-of-hostile":
+		// a well-formed arm joined by UNION [ALL] with a hostile one, on either side (what fails in an arm must
+		// come back as the error of the statement, whichever arm it is and however the arms are evaluated)
+		c.Doc = genC10Doc(t)
+		good := rapid.SampledFrom([]string{"SELECT k FROM t", "SELECT k, s FROM t WHERE k > 1", "SELECT c AS k FROM t2"}).Draw(t, "good")
+		var arms []string
+		for len(arms) < 40 {
+			h := rapid.SampledFrom(c10Hostile).Draw(t, fmt.Sprintf("arm%d", len(arms)))
+			if strings.HasPrefix(strings.ToUpper(h), "SELECT") && !strings.Contains(strings.ToUpper(h), "UNION") {
+				arms = append(arms, h)
+				break
+			}
+			arms = append(arms, "")
+		}
+		bad := arms[len(arms)-1]
+		if bad == "" {
+			bad = "SELECT * FROM t NATURAL JOIN t2"
+		}
+		op := rapid.SampledFrom([]string{" UNION ", " UNION ALL "}).Draw(t, "uop")
+		switch rapid.IntRange(0, 2).Draw(t, "side") {
+		case 0:
+			c.SQL = good + op + bad
+		case 1:
+			c.SQL = bad + op + good
+		default:
+			c.SQL = good + op + good + op + bad
+		}
 	case "dual-subquery":
 		// a table-less scalar subquery whose select list mixes comparisons, nested subqueries, back references
 		// and `*` in any order, under outer queries that format, hash, sort or group what it returns
@@ -563,7 +590,7 @@ func checkC10(c *C10Case) Result {
 		if parsed {
 			res.Labels = append(res.Labels, "reaches-build")
 		}
-		res.NonTrivial = parsed || c.Class == "fault" || c.Class == "cyclic-format" || c.Class == "mutated" || c.Class == "hostile-mutated" || c.Class == "scale" || c.Class == "dual-subquery" || c.Class == "stateful-builtins"
+		res.NonTrivial = parsed || c.Class == "fault" || c.Class == "cyclic-format" || c.Class == "mutated" || c.Class == "hostile-mutated" || c.Class == "scale" || c.Class == "dual-subquery" || c.Class == "stateful-builtins" || c.Class == "union-of-hostile"
 	}
 	return res
 }
